@@ -483,19 +483,19 @@ def check(run):
                 "pending table and globals stored with the pending reference; (R17d) apply/__call__ dereference an "
                 "evaluated ForwardRef before dispatch and raise for an unevaluated one; (R17e) local-scope resets happen "
                 "after re-resolution, classes can resolve their own name.")
-    r17a(run)
-    r17b(run)
-    r17c(run)
-    r17d(run)
-    r17e(run)
-    r17f(run)
-    r17g(run)
-    r17h(run)
-    r17i(run)
-    r17j(run)
-    r17k(run)
+    run.rule(r17a, run)
+    run.rule(r17b, run)
+    run.rule(r17c, run)
+    run.rule(r17d, run)
+    run.rule(r17e, run)
+    run.rule(r17f, run)
+    run.rule(r17g, run)
+    run.rule(r17h, run)
+    run.rule(r17i, run)
+    run.rule(r17j, run)
+    run.rule(r17k, run)
     # shared with C16: a class is looked up in the converter registry while it is still being set up (self-reference);
     # the lookup after set-up only recovers if the memo holds positive answers only
     from . import c16
     run.rules_run.append("R16d")
-    c16.r16d(run, c16.registry_class(run))
+    run.rule(c16.r16d, run, c16.registry_class(run))
